@@ -2554,7 +2554,9 @@ static void MakeCode_Z8(void) {
 }
 
 static void InitCode_Z8(void) {
-    RPVal = 0;
+    /* all three assumed register pointers start every pass in the same state */
+
+    RPVal = RP0Val = RP1Val = 0;
 }
 
 static Boolean IsDef_Z8(void) {
